@@ -320,4 +320,82 @@ RequiredPending(db, mem) ==
 AttachedFailed(db) ==
   {s \in Steps(db) : ~db.nodes[s].detached /\ db.nodes[s].sstate = "FAILED"}
 
+(* ------------- canonical forms for relational properties (C01 C02 C04 C05 C14) ---------- *)
+(* The active workflow: attached nodes with kind, creator, state, need, implied need, deferred, *)
+(* recorded content; edges between attached nodes with their dynamic flag; satellites.         *)
+NodeTuple(db, k) ==
+  LET n == db.nodes[k] IN
+    IF n.kind = "file" THEN <<k, n.creator, n.fstate, n.fhash, n.fmode>>
+    ELSE IF n.kind = "step" THEN
+      <<k, n.creator, n.sstate, n.need, n.impliedNeed, n.deferred, n.shell,
+        {<<n.envVars[i][1], n.envVars[i][3]>> : i \in DOMAIN n.envVars},   \* name, dynamic
+        n.nglobs, n.resources, n.overrides>>
+    ELSE <<k, n.creator>>
+AttachedKeys(db) == {k \in Keys(db) : ~db.nodes[k].detached}
+CanonNodes(db) == {NodeTuple(db, k) : k \in AttachedKeys(db)}
+CanonEdges(db) == {d \in DepT(db) : d[1] \in AttachedKeys(db) /\ d[2] \in AttachedKeys(db)}
+(* full rendering: detached nodes and the edges touching them included *)
+NodeTuple2(db, k) == <<NodeTuple(db, k), db.nodes[k].detached,
+                       IF db.nodes[k].kind = "step" THEN db.nodes[k].hasStepHash ELSE FALSE>>
+Canon2Nodes(db) == {NodeTuple2(db, k) : k \in Keys(db)}
+Canon2Edges(db) == DepT(db)
+
+OutputPaths(db) ==
+  {db.nodes[f].label : f \in {f \in Files(db) : ~db.nodes[f].detached
+                                 /\ Role(db.nodes[f].fstate) \in {"OUTPUT", "VOLATILE"}}}
+DiskContent(disk, p) == IF p \in DOMAIN disk.files THEN disk.files[p][1] ELSE "<absent>"
+
+SymDiff(A, B) == (A \ B) \cup (B \ A)
+PickOne(S) == IF S = {} THEN "" ELSE CHOOSE x \in S : TRUE
+
+(* "Relaxed" canon: the dynamic memory of PENDING steps (amended inputs/outputs, dynamic     *)
+(* env vars, patterns) is dropped.  After a successful build a PENDING attached step is an    *)
+(* optional step that is not needed; what it amended in an earlier life is not part of what   *)
+(* the current plans define.  (Known finding F3 labels differences that are only of this kind.) *)
+PendingStep(db, s) == s \in Steps(db) /\ db.nodes[s].sstate = "PENDING"
+DynMemoryEdge(db, d) ==
+  d[3] /\ ((d[2] \in Keys(db) /\ PendingStep(db, d[2])) \/ (d[1] \in Keys(db) /\ PendingStep(db, d[1])))
+DynOutputOfPending(db, f) ==
+  f \in Files(db) /\ \E d \in DepT(db) : d[2] = f /\ d[3] /\ PendingStep(db, d[1])
+RelaxedNodeTuple(db, k) ==
+  LET n == db.nodes[k] IN
+    IF n.kind = "step" /\ n.sstate = "PENDING" THEN
+      <<k, n.creator, n.sstate, n.need, n.impliedNeed, n.deferred, n.shell,
+        {<<n.envVars[i][1], n.envVars[i][3]>> : i \in {j \in DOMAIN n.envVars : ~n.envVars[j][3]}},
+        <<>>, n.resources, n.overrides>>
+    ELSE NodeTuple(db, k)
+RelaxedNodes(db) ==
+  {RelaxedNodeTuple(db, k) : k \in {k \in AttachedKeys(db) : ~DynOutputOfPending(db, k)}}
+RelaxedEdges(db) ==
+  {d \in CanonEdges(db) : ~DynMemoryEdge(db, d) /\ ~DynOutputOfPending(db, d[1])
+                          /\ ~DynOutputOfPending(db, d[2])}
+
+(* attached graphs equal + declared (non-volatile) outputs have equal content on disk *)
+CanonDiff(a, da, b, db_) ==
+  LET strictN == SymDiff(CanonNodes(a), CanonNodes(b))
+      strictE == SymDiff(CanonEdges(a), CanonEdges(b))
+      relN == SymDiff(RelaxedNodes(a), RelaxedNodes(b))
+      relE == SymDiff(RelaxedEdges(a), RelaxedEdges(b))
+  IN
+     {<<"active_nodes_differ", x>> : x \in relN}
+  \cup {<<"active_edges_differ", x>> : x \in relE}
+  \cup (IF relN = {} /\ relE = {} /\ (strictN # {} \/ strictE # {})
+        THEN {<<"dynamic_memory_of_pending_step_differs", PickOne(strictN \cup strictE),
+                "F3-dynamic-memory-of-reverted-optional-step">>}
+        ELSE {})
+  \cup {<<"output_content_differs", p>> : p \in {p \in OutputPaths(a) \cup OutputPaths(b) :
+          ~(("file:" \o p) \in Keys(a) /\ a.nodes["file:" \o p].fstate = "VOLATILE")
+          /\ ~(("file:" \o p) \in Keys(a) /\ DynOutputOfPending(a, "file:" \o p))
+          /\ ~(("file:" \o p) \in Keys(b) /\ DynOutputOfPending(b, "file:" \o p))
+          /\ DiskContent(da, p) # DiskContent(db_, p)}}
+Canon2Diff(a, b) ==
+     {<<"graph_nodes_differ", PickOne(SymDiff(Canon2Nodes(a), Canon2Nodes(b)))>> :
+          x \in {1} \ {i \in {1} : Canon2Nodes(a) = Canon2Nodes(b)}}
+  \cup {<<"graph_edges_differ", PickOne(SymDiff(Canon2Edges(a), Canon2Edges(b)))>> :
+          x \in {1} \ {i \in {1} : Canon2Edges(a) = Canon2Edges(b)}}
+
+RcClass(rc) == IF rc = 0 \/ rc = 8 THEN "success"
+               ELSE IF (rc \div 4) % 2 = 1 THEN "failed"
+               ELSE IF (rc \div 16) % 2 = 1 THEN "pending" ELSE "other"
+
 =============================================================================
